@@ -9,24 +9,27 @@ open GoaktVerif.Model.C45
 
 /-- a freshly constructed flow / fused stage actor -/
 def FreshMid (nd : Node) : Prop :=
-  (∃ c st, nd = .flow c st {}) ∨ (∃ c fs, nd = .fused c fs {}) ∨ (∃ c n, nd = .batch c n {})
+  (∃ c st, nd = .flow c st {}) ∨ (∃ c fs, nd = .fused c fs {}) ∨ (∃ c n, nd = .batch c n {}) ∨
+  (∃ w k b e, nd = .pmap true w k b e {})
 
 theorem FreshMid.ok {nd : Node} (h : FreshMid nd) : middleOK nd = true ∧ MidInv nd [] [] ∧ nd.alive = true := by
-  rcases h with ⟨c, st, rfl⟩ | ⟨c, fs, rfl⟩ | ⟨c, n, rfl⟩
+  rcases h with ⟨c, st, rfl⟩ | ⟨c, fs, rfl⟩ | ⟨c, n, rfl⟩ | ⟨w, k, b, e, rfl⟩
   · exact ⟨rfl, FlowInv.init st, rfl⟩
   · exact ⟨rfl, FusedInv.init fs, rfl⟩
   · exact ⟨rfl, BatchInv.init n, rfl⟩
+  · exact ⟨rfl, PInv.init k b e, rfl⟩
 
 /-- stages inside the composition theorem: flowActor-backed ones and Batch -/
 def Stage.covered : Stage → Bool
-  | .opmap _ _ _ _ | .pmap _ _ _ _ => false
+  | .pmap _ _ _ _ => false
   | _ => true
 
 theorem freshMid_mkNode (st : Stage) (h : Stage.covered st = true) : FreshMid (mkNode st) := by
   cases st <;> simp [Stage.covered] at h
   all_goals first
     | exact Or.inl ⟨_, _, rfl⟩
-    | exact Or.inr (Or.inr ⟨_, _, rfl⟩)
+    | exact Or.inr (Or.inr (Or.inl ⟨_, _, rfl⟩))
+    | exact Or.inr (Or.inr (Or.inr ⟨_, _, _, _, rfl⟩))
 
 theorem freshMid_fuseRuns (stages acc : List Stage) (hs : ∀ st ∈ stages, Stage.covered st = true)
     (ha : ∀ st ∈ acc, Stage.covered st = true) : ∀ nd ∈ fuseRuns stages acc, FreshMid nd := by
@@ -76,14 +79,15 @@ theorem rawNet_upq (mids : List Node) (input : List Val) (j : Nat) : upq (rawNet
 theorem approx_nil (input : List Val) : Approx [] input [] :=
   ⟨List.nil_prefix, fun h => by simp [termOf] at h, fun e h => by simp [termOf] at h⟩
 
-theorem specM_nil (F : SemFn) : SpecM F [] [] :=
+theorem specM_nil (P : List Val → Prop) (F : SemFn) : SpecM P F [] [] :=
   ⟨rfl, List.nil_prefix, fun _ _ _ => List.nil_prefix, fun h => by simp [termOf] at h,
     fun e h => by simp [termOf] at h⟩
 
-theorem GInv.raw (mids : List Node) (input : List Val) (hm : ∀ nd ∈ mids, FreshMid nd) :
-    GInv input (rawNet mids input) := by
+theorem GInv.raw (mids : List Node) (input : List Val) (hm : ∀ nd ∈ mids, FreshMid nd)
+    (hpar : (∀ X, P X → Homog X) ∨ ∀ nd ∈ mids, isPar nd = false) :
+    GInv P input (rawNet mids input) := by
   have hlen : (rawNet mids input).nodes.length = mids.length + 2 := by simp [rawNet]
-  refine ⟨by simp [rawNet], by rw [hlen]; omega, rfl, ?_, ?_, ?_, ?_, ?_, ?_⟩
+  refine ⟨by simp [rawNet], by rw [hlen]; omega, rfl, ?_, ?_, ?_, ?_, ?_, ?_, ?_⟩
   · intro j; rw [rawNet_pos]; omega
   · intro j; rw [rawNet_hist]; rfl
   · refine ⟨{ rest := input }, by simp [rawNet], by rw [rawNet_hist]; exact approx_nil input, fun _ => ?_⟩
@@ -98,7 +102,7 @@ theorem GInv.raw (mids : List Node) (input : List Val) (hm : ∀ nd ∈ mids, Fr
     obtain ⟨hok, hmi, _⟩ := (hm nd hmem).ok
     have hins : insOf (rawNet mids input) i = [] := by simp [insOf, rawNet_hist]
     rw [hins, rawNet_hist]
-    exact ⟨hok, specM_nil _, fun _ => hmi⟩
+    exact ⟨hok, specM_nil _ _, fun _ => hmi⟩
   · refine ⟨defaultCfg, {}, ?_, ?_⟩
     · rw [hlen]
       have e1 : mids.length + 2 - 1 = mids.length + 1 := by omega
@@ -108,6 +112,17 @@ theorem GInv.raw (mids : List Node) (input : List Val) (hm : ∀ nd ∈ mids, Fr
     · have : insOf (rawNet mids input) ((rawNet mids input).nodes.length - 1) = [] := by simp [insOf, rawNet_hist]
       rw [this]; exact SinkInv.init
   · intro j hc; rw [rawNet_upq] at hc; simp at hc
+  · rcases hpar with hp | hp
+    · exact Or.inl hp
+    · refine Or.inr fun j nd hn => ?_
+      cases j with
+      | zero => simp [rawNet] at hn; subst hn; rfl
+      | succ j =>
+        simp only [rawNet, List.getElem?_cons_succ] at hn
+        have hm := List.mem_of_getElem? hn
+        rcases List.mem_append.mp hm with h1 | h1
+        · exact hp nd h1
+        · simp at h1; subst h1; rfl
 
 /-- every node still runs -/
 def AllAlive (net : Net) : Prop := ∀ j, j < net.nodes.length → net.aliveAt j = true
@@ -142,7 +157,7 @@ theorem wire_step (nd : Node) (ha : nd.alive = true)
   | src s => exact ⟨rfl, ha⟩
   | sink c s => exact ⟨rfl, ha⟩
   | batch c n s => exact ⟨rfl, ha⟩
-  | pmap o w k b e s => rcases hk with h | ⟨s', h⟩ | ⟨c', s', h⟩ <;> simp [middleOK] at h
+  | pmap o w k b e s => exact ⟨rfl, ha⟩
 
 theorem MidInv.step_wire {nd : Node} {ins outs : List Down} (h : MidInv nd ins outs) (ha : nd.alive = true) :
     MidInv (nd.step .wire).1 ins outs := by
@@ -160,12 +175,17 @@ theorem MidInv.step_wire {nd : Node} {ins outs : List Down} (h : MidInv nd ins o
   | batch c n s =>
     have ha' : s.alive = true := ha
     simpa [Node.step, Node.alive, ha', batchStep] using h
-  | pmap o w k b e s => exact h.elim
+  | pmap o w k b e s =>
+    cases o with
+    | false => exact h.elim
+    | true =>
+      have ha' : s.alive = true := ha
+      simpa [Node.step, Node.alive, ha', pmapStep] using h
   | sink c s => exact h.elim
 
-theorem GInv.step_wire {input : List Val} {net : Net} (h : GInv input net) (hal : AllAlive net) (k : Nat)
+theorem GInv.step_wire {P : List Val → Prop} {input : List Val} {net : Net} (h : GInv P input net) (hal : AllAlive net) (k : Nat)
     (hk : k < net.nodes.length) :
-    GInv input (net.deliver k .wire) ∧ AllAlive (net.deliver k .wire) := by
+    GInv P input (net.deliver k .wire) ∧ AllAlive (net.deliver k .wire) := by
   have ha := hal k hk
   obtain ⟨nd, hn, hnda⟩ := aliveAt_some ha
   have hsb : SameBut net net (pos net) := ⟨rfl, rfl, rfl, fun _ => rfl, fun _ => rfl, fun _ _ hx => hx⟩
@@ -181,7 +201,7 @@ theorem GInv.step_wire {input : List Val} {net : Net} (h : GInv input net) (hal 
   have hhist : ∀ j, hist (net.deliver k .wire) j = hist net j := by
     intro j; rw [hf.hist, hwd]; split <;> simp
   constructor
-  · apply h.of_frame hf hn ha h.posle (fun j _ _ => rfl) hcov.1 hcov.2
+  · apply h.of_frame hf hn ha h.posle (fun j _ _ => rfl) trivial hcov
     · rw [hhist]; exact h.wfh k
     · intro hk0 s hs
       subst hk0; subst hs
@@ -219,9 +239,9 @@ theorem GInv.step_wire {input : List Val} {net : Net} (h : GInv input net) (hal 
     · exact hwa
     · exact hal j hj
 
-theorem wireAll_inv {input : List Val} (net : Net) (h : GInv input net) (hal : AllAlive net) (k : Nat)
+theorem wireAll_inv {P : List Val → Prop} {input : List Val} (net : Net) (h : GInv P input net) (hal : AllAlive net) (k : Nat)
     (hk : k ≤ net.nodes.length) :
-    GInv input (wireAll k net) ∧ AllAlive (wireAll k net) ∧ (wireAll k net).nodes.length = net.nodes.length := by
+    GInv P input (wireAll k net) ∧ AllAlive (wireAll k net) ∧ (wireAll k net).nodes.length = net.nodes.length := by
   induction k with
   | zero => exact ⟨h, hal, rfl⟩
   | succ k ih =>
